@@ -337,6 +337,7 @@ func runTask(t *Task, media map[string][]byte, sched Yielder, prior map[int]*Res
 		if n < 1 {
 			n = 1
 		}
+		var bb *bytes.Buffer
 		for i := 0; i < n; i++ {
 			if i > 0 && strings.HasPrefix(t.Between, "proto:") {
 				v, _ := strconv.Atoi(t.Between[len("proto:"):])
@@ -344,12 +345,26 @@ func runTask(t *Task, media map[string][]byte, sched Yielder, prior map[int]*Res
 			}
 			w := &SimWriter{sched: sched, task: t.ID, failAt: t.WriteFail}
 			var err error
-			if t.Sink == "buffer" && sched == nil && t.WriteFail == 0 {
+			if strings.HasPrefix(t.Sink, "buffer") && sched == nil && t.WriteFail == 0 {
 				// a *bytes.Buffer as the sink (also an io.ByteWriter, io.StringWriter, io.ReaderFrom)
-				var bb bytes.Buffer
-				err = fit.Encode(&bb, f, archOf(t.Arch))
-				w.buf = append([]byte(nil), bb.Bytes()...)
+				if bb == nil {
+					bb = &bytes.Buffer{}
+					if t.Sink == "buffer+" {
+						bb.Write(sinkPrefix(1 + (t.ID*13+len(f.UnknownFields)+int(f.Header.Size))%61))
+					}
+				}
+				before := append([]byte(nil), bb.Bytes()...)
+				err = fit.Encode(bb, f, archOf(t.Arch))
+				all := bb.Bytes()
+				if len(all) >= len(before) && bytes.Equal(all[:len(before)], before) {
+					w.buf = append([]byte(nil), all[len(before):]...)
+				} else {
+					w.buf = append([]byte(nil), all...) // bytes written earlier were touched: the stream is damaged
+				}
 				w.sizes = []int{len(w.buf)}
+				if t.Sink == "buffer" {
+					bb = nil
+				}
 			} else {
 				err = fit.Encode(w, f, archOf(t.Arch))
 			}
